@@ -6,7 +6,9 @@ Import ListNotations.
 From CV Require Import Model.M_flow Model.M_aflow.
 Open Scope Z_scope.
 
-Definition Inv (st : state) : Prop := 1 <= next_req (sid st).
+Definition Inv (st : state) : Prop :=
+  1 <= next_req (sid st) /\ memZ 0 (closed (sid st)) = true
+  /\ (rsk (sid st) = true -> self_req (sid st) = serving (sid st)).
 
 Lemma fin_effect_e5 showtb sz e5 a f :
   a <> SetResponseOfExc -> fin_effect showtb sz e5 a f = fin_effect showtb sz false a f.
@@ -43,10 +45,35 @@ Section Sound.
   Notation AE := (aexec prog pparam (p_showtb E) (p_throw E)).
   Notation EX := (exec prog pparam E).
 
+  Lemma alpha_x_effect a i :
+    (rsk i = true -> self_req i = serving i) ->
+    In (is_open (ids_effect a i), rsk (ids_effect a i), lost_req (ids_effect a i))
+       (x_effect a (is_open i, rsk i, lost_req i)).
+  Proof.
+    intros Hk.
+    destruct a; cbn [ids_effect x_effect]; try (left; reflexivity).
+    - (* LoadServing *)
+      cbn [rsk lost_req].
+      match goal with |- In (?b1, _, _) _ => destruct b1; cbn; tauto end.
+    - (* SetClosed *)
+      cbn [rsk lost_req].
+      assert (Ho : is_open (Ids (next_req i) (pending_req i) (serving i) (self_req i) (last_ir_req i) (ir_req i)
+                               (self_req i :: closed i) (served i) (lost_req i) (rsk i))
+                   = if self_req i =? serving i then false else is_open i).
+      { unfold is_open. cbn [serving closed]. unfold memZ. cbn [existsb].
+        destruct (self_req i =? serving i) eqn:Ers.
+        - apply Z.eqb_eq in Ers. rewrite Ers, Z.eqb_refl. cbn [orb negb]. apply andb_false_r.
+        - rewrite Z.eqb_sym in Ers. rewrite Ers. reflexivity. }
+      rewrite Ho.
+      destruct (rsk i) eqn:Ek.
+      + rewrite (Hk eq_refl), Z.eqb_refl. now left.
+      + destruct (self_req i =? serving i); cbn; tauto.
+  Qed.
+
   Lemma alpha_effect a st :
     Inv st -> In (alpha (effect E a (log_action a st))) (a_effect (p_showtb E) a (alpha st)).
   Proof.
-    intros Hinv. unfold Inv in Hinv. unfold alpha, effect, log_action, a_effect. cbn [sid sfin tick].
+    intros Hinv. destruct Hinv as (Hinv & _ & Hk). unfold alpha, effect, log_action, a_effect. cbn [sid sfin tick].
     assert (Hsz : (serving (ids_effect a (sid st)) =? 0)
                   = match a with LoadServing => pending_req (sid st) =? 0 | ClearServing => true
                             | _ => serving (sid st) =? 0 end) by (destruct a; reflexivity).
@@ -54,29 +81,59 @@ Section Sound.
                   = match a with NewRequest => false | _ => pending_req (sid st) =? 0 end).
     { destruct a; try reflexivity. cbn. apply Z.eqb_neq. lia. }
     rewrite Hsz, Hpz.
+    apply in_flat_map.
+    exists (is_open (ids_effect a (sid st)), rsk (ids_effect a (sid st)), lost_req (ids_effect a (sid st))).
+    split; [apply alpha_x_effect; exact Hk|].
     destruct (action_eq_dec a SetResponseOfExc) as [->|Hne].
     - destruct (e_cond E (S (tick st)) FHTTPError5xx); cbn; tauto.
     - rewrite (fin_effect_e5 _ _ _ a _ Hne). destruct a; try (left; reflexivity). congruence.
   Qed.
 
-  Lemma alpha_eval_flag st f : In (eval_flag E st f) (a_eval_flag (p_showtb E) (p_throw E) (alpha st) f).
+  Lemma alpha_eval_flag st f :
+    Inv st -> In (eval_flag E st f) (a_eval_flag (p_showtb E) (p_throw E) (alpha st) f).
   Proof.
-    unfold eval_flag, a_eval_flag, alpha.
-    destruct f; try (destruct (e_cond E _ _); cbn; tauto); try (cbn; tauto).
-    destruct (memZ _ _); cbn; tauto.
+    intros (_ & H0 & Hk). unfold eval_flag, a_eval_flag, alpha.
+    destruct f; try (destruct (rsk (sid st)); fail);
+      try (destruct (e_cond E _ _); cbn; tauto); try (cbn; tauto).
+    (* FClosed *)
+    destruct (rsk (sid st)) eqn:Ek.
+    - rewrite (Hk eq_refl).
+      destruct (serving (sid st) =? 0) eqn:Esz.
+      + apply Z.eqb_eq in Esz. rewrite Esz in *. rewrite H0. now left.
+      + unfold is_open. rewrite Esz. cbn [negb andb]. rewrite negb_involutive. now left.
+    - destruct (memZ (self_req (sid st)) (closed (sid st))); cbn; tauto.
   Qed.
 
-  Lemma alpha_eval_cond st c : In (eval_cond E st c) (a_eval_cond (p_showtb E) (p_throw E) (alpha st) c).
+  Lemma alpha_eval_cond st c :
+    Inv st -> In (eval_cond E st c) (a_eval_cond (p_showtb E) (p_throw E) (alpha st) c).
   Proof.
-    induction c as [|f|c IH|]; cbn [eval_cond a_eval_cond].
+    intros Hinv. induction c as [|f|c IH|]; cbn [eval_cond a_eval_cond].
     - now left.
-    - apply alpha_eval_flag.
+    - now apply alpha_eval_flag.
     - now apply in_map.
     - destruct (e_cond E (tick st) FOther); cbn; tauto.
   Qed.
 
   Lemma Inv_effect a st : Inv st -> Inv (effect E a (log_action a st)).
-  Proof. unfold Inv, effect, log_action. cbn. intros H. destruct a; cbn; lia. Qed.
+  Proof.
+    unfold Inv, effect, log_action. cbn [sid]. intros (H & H0 & Hk). split; [|split].
+    - destruct a; cbn; lia.
+    - destruct a; try exact H0. cbn [ids_effect closed]. unfold memZ in *. cbn [existsb]. rewrite H0. apply orb_true_r.
+    - destruct a; try exact Hk; cbn [ids_effect rsk self_req serving]; try exact Hk; discriminate.
+  Qed.
+
+  Lemma Inv_enter g st : Inv st -> Inv (with_self (receiver g st) (recv_known g (rsk (sid st))) st).
+  Proof.
+    intros (H & H0 & Hk). unfold Inv, with_self. cbn [sid ids_with_self next_req closed rsk self_req serving].
+    split; [exact H|]. split; [exact H0|].
+    unfold receiver, recv_known. destruct g; try exact Hk; try reflexivity; discriminate.
+  Qed.
+
+  Lemma Inv_leave r st : Inv st -> Inv (with_self r false st).
+  Proof.
+    intros (H & H0 & _). unfold Inv, with_self. cbn [sid ids_with_self next_req closed rsk].
+    split; [exact H|]. split; [exact H0|]. discriminate.
+  Qed.
 
   Lemma exec_Inv : forall fuel param s st o st',
     Inv st -> EX fuel param s st = (o, st') -> Inv st'.
@@ -123,9 +180,8 @@ Section Sound.
       destruct (EX f param body (upd_tick st)) as [o1 st1] eqn:H1.
       assert (Hu : Inv (upd_tick st)) by exact Hinv. pose proof (IH _ _ _ _ _ Hu H1) as Hi1.
       destruct o1; try (inversion H; subst; exact Hi1). eapply IH; eassumption.
-    - destruct (EX f (pparam g) (prog g) (with_self (receiver g st) st)) as [o1 st1] eqn:H1.
-      assert (Hw : Inv (with_self (receiver g st) st)) by exact Hinv.
-      pose proof (IH _ _ _ _ _ Hw H1) as Hi1. inversion H; subst. exact Hi1.
+    - destruct (EX f (pparam g) (prog g) (with_self (receiver g st) (recv_known g (rsk (sid st))) st)) as [o1 st1] eqn:H1.
+      pose proof (IH _ _ _ _ _ (Inv_enter g st Hinv) H1) as Hi1. inversion H; subst. now apply Inv_leave.
     - eapply IH; eassumption.
   Qed.
 
@@ -315,7 +371,7 @@ Section Sound.
           destruct (AE af param h (a_cur (Some e) (alpha st1))) as [Rh|] eqn:HRh; [|discriminate].
           cbn [option_map] in Hk. apply Some_inj in Hk; subst Rx.
           pose proof (IHf param h (with_cur (Some e) st1) oh sth Hw Hh Ho2 af Rh HRh) as Hmh.
-          apply (in_map (fun rh => (fst rh, a_cur (cur_exn (fst (fst (alpha st1)))) (snd rh)))) in Hmh.
+          apply (in_map (fun rh => (fst rh, a_cur (cur_exn (fst (fst (fst (alpha st1))))) (snd rh)))) in Hmh.
           exact Hmh.
         + inversion Hmid; subst o2 st2. split; [|exact Hinv1]. apply Hincl. apply Some_inj in Hk; subst Rx. now left.
       - congruence. }
@@ -353,7 +409,7 @@ Section Sound.
     intros [|af] R HR; cbn [aexec] in HR; [discriminate|].
     destruct (bindL _ _) as [R2|] eqn:HB; [|discriminate]. apply Some_inj in HR; subst R.
     apply dedupe_in.
-    destruct (bindL_in _ _ _ _ HB (alpha_eval_cond st c)) as (Rx & Hk & Hincl).
+    destruct (bindL_in _ _ _ _ HB (alpha_eval_cond st c Hinv)) as (Rx & Hk & Hincl).
     apply Hincl. apply (Hm2 af Rx). exact Hk.
   Qed.
 
@@ -440,6 +496,13 @@ Section Sound.
     apply (forloop_case (S f) body param af C Racc IH Hc2 (S f) (le_n _) st o st' Hinv Hc1 H Hne).
   Qed.
 
+  Lemma alpha_enter g st :
+    alpha (with_self (receiver g st) (recv_known g (rsk (sid st))) st) = a_enter g (alpha st).
+  Proof. reflexivity. Qed.
+
+  Lemma alpha_leave r st : alpha (with_self r false st) = a_leave (alpha st).
+  Proof. reflexivity. Qed.
+
   Lemma case_Call f g :
     (forall m, (m < S f)%nat -> sound_at m) ->
     forall param st o st', Inv st ->
@@ -449,17 +512,17 @@ Section Sound.
     intros IH param st o st' Hinv H Hne.
     assert (IHf : sound_at f) by (apply IH; lia).
     cbn [exec] in H.
-    destruct (EX f (pparam g) (prog g) (with_self (receiver g st) st)) as [o1 st1] eqn:H1.
+    destruct (EX f (pparam g) (prog g) (with_self (receiver g st) (recv_known g (rsk (sid st))) st)) as [o1 st1] eqn:H1.
     inversion H; subst o st'; clear H.
     assert (Ho1 : o1 <> OutOfFuel) by (intros ->; congruence).
-    assert (Hw : Inv (with_self (receiver g st) st)) by exact Hinv.
-    pose proof (IHf (pparam g) (prog g) _ o1 st1 Hw H1 Ho1) as Hm1.
+    pose proof (IHf (pparam g) (prog g) _ o1 st1 (Inv_enter g st Hinv) H1 Ho1) as Hm1.
     intros [|af] R HR; cbn [aexec] in HR; [discriminate|].
-    destruct (AE af (pparam g) (prog g) (alpha st)) as [R1|] eqn:HR1; [|discriminate].
-    apply Some_inj in HR; subst R.
-    change (alpha (with_self (self_req (sid st)) st1)) with (alpha st1).
+    rewrite alpha_enter in Hm1.
+    destruct (AE af (pparam g) (prog g) (a_enter g (alpha st))) as [R1|] eqn:HR1; [|discriminate].
+    cbn [option_map] in HR. apply Some_inj in HR; subst R.
     specialize (Hm1 af R1 HR1).
-    apply (in_map (fun r => (match fst r with Returned => Normal | o => o end, snd r))) in Hm1.
+    apply dedupe_in. rewrite alpha_leave.
+    apply (in_map (fun r => (match fst r with Returned => Normal | o => o end, a_leave (snd r)))) in Hm1.
     cbn [fst snd] in Hm1. destruct o1; exact Hm1.
   Qed.
 
